@@ -187,7 +187,7 @@ class Executor:
         self.encoded = set()
         self.query_cache = {}
         self.timeout = self.opts.get('timeout', 60)
-        self.quick_ms = self.opts.get('quick_ms', 1500)
+        self.quick_ms = self.opts.get('quick_ms', 300)
         self.solvers = self.opts.get('solvers', ('cvc5', 'z3-new'))
         self.purity_violations = []
         self.global_reads = set()
@@ -489,8 +489,19 @@ class Executor:
         key = (frozenset(st.pcset), extra.uid if not isinstance(extra, bool) else extra)
         r = self.query_cache.get(key)
         if r is None:
+            t0 = time.time()
             r, _ = S.quick_check(st.pc + [extra], self.quick_ms)
+            if r == 'unknown' and self.opts.get('feas_cvc5'):
+                # z3 is weak on these; cvc5 usually answers in tens of milliseconds
+                text, em = T.to_smt(st.pc + [extra], want_model=False)
+                res = S.portfolio(text, [], self.opts.get('feas_timeout', 3), ('cvc5',))
+                r = res['verdict'] if res['verdict'] in ('sat', 'unsat') else 'unknown'
             self.query_cache[key] = r
+            dt = time.time() - t0
+            if dt > 0.5 and self.opts.get('trace_slow'):
+                fr = st.frames[-1]
+                ins = fr.fn.blocks[fr.block]['instrs'][fr.ip]
+                print('SLOW feasibility %.2fs %s at %s %s pc=%d' % (dt, r, fr.fn.name.split('.')[-1], ins.get('pos'), len(st.pc)))
         return r != 'unsat'
 
     def branch(self, st, c):
@@ -526,7 +537,7 @@ class Executor:
         # first a quick in-process attempt (finds counterexamples and easy proofs cheaply)
         res = None
         if self.opts.get('inproc_first', True):
-            v, model = S.quick_check(asserts, self.opts.get('inproc_prove_ms', 800))
+            v, model = S.quick_check(asserts, self.opts.get('inproc_prove_ms', 150), want_model=True)
             if v in ('sat', 'unsat'):
                 res = {'verdict': v, 'model': model, 'solver': 'z3-inproc', 'times': {'z3-inproc': round(time.time() - t0, 3)}}
         if res is None:
@@ -885,10 +896,13 @@ class Executor:
         if values is None:
             if lo is None or hi is None or hi - lo > 300:
                 # solver-driven enumeration
+                if self.opts.get('trace_slow'):
+                    fr = st.frames[-1]
+                    print('ENUM', term, term.terms, term.c, fr.fn.name.split('.')[-1], fr.fn.blocks[fr.block]['instrs'][fr.ip].get('pos'))
                 values = []
                 pc = list(st.pc)
                 for _ in range(64):
-                    v, model = S.quick_check(pc, 5000)
+                    v, model = S.quick_check(pc, 5000, want_model=True)
                     if v != 'sat':
                         if v == 'unknown':
                             raise Unsupported('cannot enumerate values of control term')
@@ -1043,7 +1057,11 @@ class Executor:
     def exec_if(self, st, fr, blk, ins, stop):
         c = self.val(st, fr, ins['x'])
         d = self.decide(st, c)
+        fn = fr.fn
+        J = None
         if d is None:
+            J = fn.simple_region(fr.block) if self.opts.get('merge', True) else None
+        if d is None and J is None:
             if not self.feasible(st, c):
                 self.add_pc(st, T.bnot(c))
                 d = False
@@ -1053,8 +1071,6 @@ class Executor:
         if d is not None:
             self.jump(st, fr, blk['succs'][0 if d else 1])
             return None
-        fn = fr.fn
-        J = fn.simple_region(fr.block) if self.opts.get('merge', True) else None
         a = st.copy()
         b = st
         T.set_ctx(a.refine)
